@@ -116,11 +116,10 @@ def _work(job):
             out['verdict'], out['by'] = 'discharged', 'z3-ground'
             if not use_cvc5_always:
                 return out
-        elif r3 == 'sat':
-            out['verdict'], out['by'] = 'refuted', 'z3-ground'
-            out['model'] = model3
-            return out
-        if r3 == 'unknown' and z3_to > quick_to:
+        cand = model3 if r3 == 'sat' else None
+        # a model of the instantiated query is only a candidate (instances are
+        # consequences, not the whole theory): it never ends the search
+        if r3 in ('unknown', 'sat') and z3_to > quick_to:
             r, t, reason, model = _run_z3(smt, z3_to)
             out['backends'].append(dict(solver='z3', result=r,
                                         time_s=round(t, 3), reason=reason))
@@ -128,6 +127,9 @@ def _work(job):
     by = 'z3' if verdict != 'unknown' else None
     if verdict == 'refuted':
         out['model'] = model
+    if verdict == 'unknown' and not fp and locals().get('cand') is not None:
+        verdict, by = 'refuted', 'z3-ground'
+        out['model'] = cand
     if verdict == 'unknown' or use_cvc5_always:
         r2, t2, reason2, _ = _run_cvc5(smt, cvc5_to)
         out['backends'].append(dict(solver='cvc5', result=r2,
@@ -196,7 +198,7 @@ def discharge_all(obligations, axioms=(), cross_check=False, procs=None,
     return _retry_unknown(jobs, results)
 
 
-RETRY_MAX = 24
+RETRY_MAX = 12
 
 
 def _retry_one(job):
@@ -206,10 +208,9 @@ def _retry_one(job):
     process it runs in and to the load of the machine; a verdict must not be"""
     name, smt, cc, z3_to, cvc5_to = job
     tried = []
-    for (solver, arg) in (('z3', 1), ('ground', 3 * z3_to), ('z3', 2),
-                          ('z3', 3)):
+    for (solver, arg) in (('z3', 1), ('z3', 2), ('ground', 2 * z3_to)):
         if solver == 'z3':
-            r, t, reason, model = _run_z3(smt, 2 * z3_to, seed=arg)
+            r, t, reason, model = _run_z3(smt, z3_to, seed=arg)
             stats = None
         else:
             r, t, reason, model, stats = _run_ground(smt, arg)
@@ -225,7 +226,8 @@ def _retry_one(job):
 
 
 def _retry_unknown(jobs, results):
-    idx = [i for i, r in enumerate(results) if r['verdict'] == 'unknown']
+    idx = [i for i, r in enumerate(results) if r['verdict'] == 'unknown' or
+           (r['verdict'] == 'refuted' and r.get('by') == 'z3-ground')]
     if not idx or len(idx) > RETRY_MAX:
         return results
     ctx = mp.get_context('fork')
